@@ -1,15 +1,429 @@
-//! C16 harness (stub).
+//! C16: nodegraph files are khmer-compatible and round-trip for every table size.
+//!
+//! Request lines
+//!   case <n> new <k> <sizes>     Nodegraph::new(sizes, k)
+//!   case <n> raw                 no graph yet (a `load` follows)
+//!   count <h>                    -> 0/1
+//!   load <hex>                   Nodegraph::from_reader(bytes) -> dump | fail
+//!   dump                         k=.. occ=.. n=.. size:blocks;..   (raw 32-bit blocks of every table)
+//!   save                         hex of save_to_writer
+//!   rt                           save_to_writer -> from_reader -> ==      same|diff|fail
+//!   gz <level>                   nodegraph_to_buffer(level) (gzip when level > 0) -> from_reader -> save
+//!   ffi <level>                  nodegraph_to_buffer(level) -> nodegraph_from_buffer -> nodegraph_to_buffer(0)
+//!   file <level>                 level 0: save(path) -> from_path; else gz buffer on disk -> nodegraph_from_path; -> save
+use sourmash::ffi::nodegraph::{
+    nodegraph_buffer_free, nodegraph_free, nodegraph_from_buffer, nodegraph_from_path,
+    nodegraph_to_buffer, SourmashNodegraph,
+};
+use sourmash::ffi::utils::{sourmash_err_clear, sourmash_err_get_last_code, ForeignObject};
+use sourmash::sketch::nodegraph::Nodegraph;
+use std::ffi::CString;
+use std::os::raw::c_char;
 use verif_harness::*;
 
-fn gen(_a: &Args) {
-    let mut o = Out::new();
-    o.case("stub");
+const TESTDATA: &str = "/repo/tests/test-data";
+
+fn header(k: u32, n: u8, occ: u64) -> Vec<u8> {
+    let mut v = b"OXLI\x04\x02".to_vec();
+    v.extend_from_slice(&k.to_le_bytes());
+    v.push(n);
+    v.extend_from_slice(&occ.to_le_bytes());
+    v
 }
 
-fn step(_: &mut (), ws: &[&str]) -> String {
+/// data bytes of one table in khmer layout, several fill styles (garbage above `size` included)
+fn table_record(r: &mut Rng, size: u64) -> Vec<u8> {
+    let nbytes = (size / 8 + 1) as usize;
+    let mut v = size.to_le_bytes().to_vec();
+    let style = r.below(7);
+    for i in 0..nbytes {
+        let b = match style {
+            0 => 0u8,
+            1 => 0xff,
+            2 => r.next() as u8,
+            3 => (r.next() & r.next()) as u8,
+            4 => (r.next() & r.next() & r.next() & r.next()) as u8,
+            5 => {
+                // only the last two bytes
+                if i + 2 >= nbytes {
+                    r.next() as u8 | 0x81
+                } else {
+                    0
+                }
+            }
+            _ => {
+                if r.chance(1, 6) {
+                    r.next() as u8
+                } else {
+                    0
+                }
+            }
+        };
+        v.push(b);
+    }
+    v
+}
+
+fn some_k(r: &mut Rng) -> u32 {
+    match r.below(6) {
+        0 => 0,
+        1 => u32::MAX,
+        2 => r.bits(32) as u32,
+        _ => r.range(1, 64) as u32,
+    }
+}
+fn some_occ(r: &mut Rng) -> u64 {
+    match r.below(5) {
+        0 => 0,
+        1 => u64::MAX,
+        2 => r.bits(64),
+        _ => r.range(0, 5000),
+    }
+}
+
+fn boundary_bits(size: u64) -> Vec<u64> {
+    let mut v = vec![0, size - 1];
+    for d in [1u64, 2, 7, 8, 9, 31, 32, 33] {
+        if size > d {
+            v.push(size - 1 - d);
+        }
+    }
+    v.push(size / 32 * 32);
+    v.push(size / 8 * 8);
+    v.push((size / 32 * 32).saturating_sub(1));
+    v.retain(|b| *b < size);
+    v.sort();
+    v.dedup();
+    v
+}
+
+fn path_ops(o: &mut Out, r: &mut Rng, heavy: bool) {
+    o.op("save");
+    o.op("rt");
+    o.op("dump");
+    if heavy || r.chance(1, 3) {
+        o.op(&format!("gz {}", r.range(0, 9)));
+    }
+    if heavy || r.chance(1, 6) {
+        o.op(&format!("ffi {}", r.range(0, 9)));
+    }
+    if heavy || r.chance(1, 12) {
+        o.op(&format!("file {}", r.range(0, 9)));
+    }
+}
+
+fn single_size_cases(o: &mut Out, r: &mut Rng, size: u64, heavy: bool) {
+    // (a) built through the API
+    o.case(&format!("new {} {}", some_k(r), size));
+    let style = r.below(4);
+    if style != 0 {
+        let bb = boundary_bits(size);
+        for b in &bb {
+            if style == 1 || r.chance(1, 2) {
+                // any hash congruent to the bit
+                let m = if r.chance(1, 2) { 0 } else { r.below((u64::MAX - b) / size) };
+                o.op(&format!("count {}", b + m * size));
+            }
+        }
+        for _ in 0..r.range(0, 24) {
+            o.op(&format!("count {}", r.bits(64)));
+        }
+    }
+    path_ops(o, r, heavy);
+    // (b) a khmer-layout byte string with arbitrary data bytes
+    o.case("raw");
+    let occ = some_occ(r);
+    let mut f = header(some_k(r), 1, occ);
+    f.extend(table_record(r, size));
+    if r.chance(1, 10) {
+        // trailing bytes are ignored
+        for _ in 0..r.range(1, 9) {
+            f.push(r.next() as u8);
+        }
+    }
+    o.op(&format!("load {}", hex(&f)));
+    path_ops(o, r, false);
+    // (the occupied counter is a usize: no insertions next to its overflow)
+    if occ < (1 << 63) && r.chance(1, 3) {
+        for _ in 0..r.range(1, 6) {
+            o.op(&format!("count {}", r.bits(64)));
+        }
+        o.op("save");
+        o.op("rt");
+    }
+}
+
+fn pick_size(r: &mut Rng, max: u64) -> u64 {
+    match r.below(6) {
+        0 => 32 * r.range(1, max / 32),
+        1 => 32 * r.range(0, max / 32 - 1) + r.range(24, 31),
+        2 => 8 * r.range(1, max / 8),
+        3 => r.range(1, 40),
+        _ => r.range(1, max),
+    }
+}
+
+fn multi_case(o: &mut Out, r: &mut Rng, n: usize, max: u64) {
+    let sizes: Vec<u64> = (0..n).map(|_| pick_size(r, max)).collect();
+    if r.chance(1, 2) {
+        o.case(&format!("new {} {}", some_k(r), show_nats(sizes.iter().copied())));
+        for _ in 0..r.range(0, 40) {
+            o.op(&format!("count {}", r.bits(64)));
+        }
+    } else {
+        o.case("raw");
+        let mut f = header(some_k(r), n as u8, some_occ(r));
+        for s in &sizes {
+            f.extend(table_record(r, *s));
+        }
+        o.op(&format!("load {}", hex(&f)));
+    }
+    path_ops(o, r, false);
+}
+
+fn oxli_files(dir: &str) -> Vec<String> {
+    let mut v = vec![];
+    if let Ok(rd) = std::fs::read_dir(format!("{}/{}", TESTDATA, dir)) {
+        for e in rd.flatten() {
+            let p = e.path();
+            if let Ok(d) = std::fs::read(&p) {
+                if d.starts_with(b"OXLI") {
+                    v.push(p.to_string_lossy().to_string());
+                }
+            }
+        }
+    }
+    v.sort();
+    v
+}
+
+fn gen(a: &Args) {
+    let mut r = Rng::new(a.seed);
+    let mut o = Out::new();
+    let thorough = a.tier == "thorough";
+    // 1. every single-table size
+    let mut sizes: Vec<u64> = vec![];
+    if thorough {
+        sizes.extend(1..=4096);
+        for _ in 0..1500 {
+            sizes.push(pick_size(&mut r, 65536));
+        }
+    } else {
+        sizes.extend(1..=600);
+        let mut s = 600;
+        while s <= 5000 {
+            s += 1;
+            if s % 8 == 0 || s % 32 >= 24 {
+                sizes.push(s);
+            }
+        }
+    }
+    for (i, s) in sizes.iter().enumerate() {
+        single_size_cases(&mut o, &mut r, *s, i % 97 == 0);
+    }
+    // 2. multi-table graphs, table counts up to 255
+    let mut counts: Vec<usize> = vec![1, 2, 3, 4, 5, 6, 7, 8, 16, 31, 32, 33, 64, 127, 128, 200, 254, 255, 255];
+    let extra = if thorough { 3000 } else { 300 };
+    for _ in 0..extra {
+        counts.push(if r.chance(3, 4) { r.range(2, 12) as usize } else { r.range(2, 255) as usize });
+    }
+    for n in counts {
+        let max = if n > 64 { 100 } else { 300 };
+        multi_case(&mut o, &mut r, n, max);
+    }
+    // more than 255 tables: outside the property (the count is written `as u8`); model only
+    for n in [256usize, 257, 300] {
+        let sizes: Vec<u64> = (0..n).map(|_| r.range(1, 40)).collect();
+        o.case(&format!("new 21 {}", show_nats(sizes.iter().copied())));
+        o.op("count 12345");
+        o.op("save");
+        o.op("rt");
+    }
+    // 3. files written by khmer (bundled SBT internal nodes)
+    let mut files = oxli_files(".sbt.v3");
+    files.extend(oxli_files(".sbt.v2"));
+    let subset = oxli_files(".sbt.subset");
+    if thorough {
+        files.extend(subset);
+    } else {
+        for _ in 0..6 {
+            if !subset.is_empty() {
+                files.push(r.pick(&subset).clone());
+            }
+        }
+    }
+    for f in files {
+        let d = std::fs::read(&f).unwrap();
+        o.case("raw");
+        o.op(&format!("load {}", hex(&d)));
+        o.op("save");
+        o.op("rt");
+        if r.chance(1, 3) {
+            o.op(&format!("gz {}", r.range(1, 9)));
+        }
+    }
+    // 4. damaged files: both sides refuse
+    for _ in 0..(if thorough { 400 } else { 60 }) {
+        let size = pick_size(&mut r, 300);
+        let mut f = header(some_k(&mut r), 1, some_occ(&mut r));
+        f.extend(table_record(&mut r, size));
+        o.case("raw");
+        match r.below(3) {
+            0 => {
+                let cut = r.below(f.len() as u64) as usize;
+                f.truncate(cut);
+            }
+            1 => {
+                let i = r.below(6) as usize;
+                f[i] ^= 1 << r.below(8);
+            }
+            _ => {
+                f[10] = r.range(2, 5) as u8; // promises more tables than there are
+            }
+        }
+        o.op(&format!("load {}", hex(&f)));
+    }
+}
+
+fn save_bytes(ng: &Nodegraph) -> Vec<u8> {
+    let mut buf = vec![];
+    ng.save_to_writer(&mut buf).unwrap();
+    buf
+}
+
+fn dump(ng: &Nodegraph) -> String {
+    let sizes = ng.tablesizes();
+    let bs = ng.clone().into_bitsets();
+    let t: Vec<String> = bs
+        .iter()
+        .zip(sizes.iter())
+        .map(|(b, s)| format!("{}:{}", s, show_nats(b.as_slice().iter().map(|x| *x as u64))))
+        .collect();
+    format!("k={} occ={} n={} {}", ng.ksize(), ng.noccupied(), ng.ntables(), t.join(";"))
+}
+
+unsafe fn to_buffer(ng: &Nodegraph, level: u8) -> Result<Vec<u8>, String> {
+    sourmash_err_clear();
+    let mut size: usize = 0;
+    let p = nodegraph_to_buffer(ng as *const Nodegraph as *const SourmashNodegraph, level, &mut size);
+    if p.is_null() || sourmash_err_get_last_code() as u32 != 0 {
+        return Err(format!("err code{}", sourmash_err_get_last_code() as u32));
+    }
+    let v = std::slice::from_raw_parts(p, size).to_vec();
+    nodegraph_buffer_free(p as *mut u8, size);
+    Ok(v)
+}
+
+fn step(st: &mut Option<Nodegraph>, ws: &[&str]) -> String {
     match ws[0] {
-        "case" => "ok".into(),
-        _ => "bad-op".into(),
+        "case" => {
+            if ws.len() >= 5 && ws[2] == "new" {
+                let sizes: Vec<usize> = parse_nats(ws[4]).into_iter().map(|x| x as usize).collect();
+                *st = Some(Nodegraph::new(&sizes, ws[3].parse().unwrap()));
+            }
+            "ok".into()
+        }
+        "load" => {
+            *st = None;
+            let bytes = unhex(ws[1]);
+            let r = std::panic::catch_unwind(|| Nodegraph::from_reader(&bytes[..]));
+            match r {
+                Ok(Ok(ng)) => {
+                    let d = dump(&ng);
+                    *st = Some(ng);
+                    d
+                }
+                _ => "fail".into(),
+            }
+        }
+        _ => {
+            let ng = match st.as_mut() {
+                Some(g) => g,
+                None => return "nograph".into(),
+            };
+            match ws[0] {
+                "count" => (ng.count(ws[1].parse().unwrap()) as u8).to_string(),
+                "dump" => dump(ng),
+                "save" => hex(&save_bytes(ng)),
+                "rt" => {
+                    let b = save_bytes(ng);
+                    match Nodegraph::from_reader(&b[..]) {
+                        Ok(g2) => {
+                            if g2 == *ng && g2.tablesizes() == ng.tablesizes() {
+                                "same".into()
+                            } else {
+                                "diff".into()
+                            }
+                        }
+                        Err(_) => "fail".into(),
+                    }
+                }
+                "gz" => unsafe {
+                    let level: u8 = ws[1].parse().unwrap();
+                    let b = match to_buffer(ng, level) {
+                        Ok(b) => b,
+                        Err(e) => return e,
+                    };
+                    let is_gz = b.starts_with(&[0x1f, 0x8b]);
+                    if is_gz != (level > 0) {
+                        return "badmagic".into();
+                    }
+                    match Nodegraph::from_reader(&b[..]) {
+                        Ok(g2) => hex(&save_bytes(&g2)),
+                        Err(_) => "fail".into(),
+                    }
+                },
+                "ffi" => unsafe {
+                    let level: u8 = ws[1].parse().unwrap();
+                    let b = match to_buffer(ng, level) {
+                        Ok(b) => b,
+                        Err(e) => return e,
+                    };
+                    sourmash_err_clear();
+                    let p = nodegraph_from_buffer(b.as_ptr() as *const c_char, b.len());
+                    if p.is_null() {
+                        return format!("err code{}", sourmash_err_get_last_code() as u32);
+                    }
+                    let out = to_buffer(SourmashNodegraph::as_rust(p), 0);
+                    nodegraph_free(p);
+                    match out {
+                        Ok(b) => hex(&b),
+                        Err(e) => e,
+                    }
+                },
+                "file" => unsafe {
+                    let level: u8 = ws[1].parse().unwrap();
+                    let dir = tempfile::tempdir().unwrap();
+                    if level == 0 {
+                        let p = dir.path().join("g.ng");
+                        if ng.save(&p).is_err() {
+                            return "fail".into();
+                        }
+                        match Nodegraph::from_path(&p) {
+                            Ok(g2) => hex(&save_bytes(&g2)),
+                            Err(_) => "fail".into(),
+                        }
+                    } else {
+                        let b = match to_buffer(ng, level) {
+                            Ok(b) => b,
+                            Err(e) => return e,
+                        };
+                        let p = dir.path().join("g.ng.gz");
+                        std::fs::write(&p, &b).unwrap();
+                        let c = CString::new(p.to_str().unwrap()).unwrap();
+                        sourmash_err_clear();
+                        let q = nodegraph_from_path(c.as_ptr());
+                        if q.is_null() {
+                            return format!("err code{}", sourmash_err_get_last_code() as u32);
+                        }
+                        let out = hex(&save_bytes(SourmashNodegraph::as_rust(q)));
+                        nodegraph_free(q);
+                        out
+                    }
+                },
+                _ => "bad-op".into(),
+            }
+        }
     }
 }
 
@@ -17,7 +431,7 @@ fn main() {
     let a = args();
     match a.mode.as_str() {
         "gen" => gen(&a),
-        "exec" => exec_loop(|| (), step),
+        "exec" => exec_loop(|| None, step),
         _ => panic!("mode"),
     }
 }
